@@ -640,36 +640,19 @@ Proof.
   repeat split; apply perm_lookup; try assumption; apply nodupb_NoDup; assumption.
 Qed.
 
-(* ---------- the current tree: unknown digests are hashed as the missing-word marker (fix
-   838760d), so the output digest is injective without extra hypotheses and the input digest
-   needs env_names_ok only.  These three lemmas break (eq_refl no longer typechecks) if the code
-   goes back to hashing b"u" as a bytes word. ---------- *)
-Lemma unknown_as_none_now : unknown_as_none = true.
-Proof. reflexivity. Qed.
-
-Theorem out_preimage_injective_full :
-  forall m1 m2, wf_files m1 = true -> wf_files m2 = true ->
-    out_preimage m1 = out_preimage m2 -> Permutation m1 m2.
-Proof. exact (out_preimage_injective_when_repaired unknown_as_none_now). Qed.
-
-Theorem decode_out_ok_full m :
-  wf_files m = true -> decode_out Fixed (out_preimage m) = Some (sort_keys m).
+(* ---------- once unknown digests are hashed as the missing-word marker (repair of D2) but the
+   override keyword is still a str word: the input digest needs env_names_ok only ---------- *)
+Lemma inp_ok_fixed_when_d2_repaired c :
+  unknown_as_none = true -> env_names_ok c = true -> inp_ok Fixed c = true.
 Proof.
-  intros W. apply decode_out_ok; [exact W|]. apply digests_ok_fixed_when_repaired, unknown_as_none_now.
+  intros Hu H. unfold inp_ok. rewrite (digests_ok_fixed_when_repaired _ Hu), H. reflexivity.
 Qed.
 
-Lemma inp_ok_fixed_now c : env_names_ok c = true -> inp_ok Fixed c = true.
+Theorem inp_preimage_injective_env_when_d2_repaired :
+  unknown_as_none = true ->
+  forall c1 c2, wf c1 = true -> wf c2 = true -> env_names_ok c1 = true -> env_names_ok c2 = true ->
+    inp_preimage c1 = inp_preimage c2 -> cfg_equiv c1 c2.
 Proof.
-  intros H. unfold inp_ok. rewrite (digests_ok_fixed_when_repaired _ unknown_as_none_now), H. reflexivity.
-Qed.
-
-Theorem decode_inp_ok_env c :
-  wf c = true -> env_names_ok c = true -> decode_inp Fixed (inp_preimage c) = Some (canon c).
-Proof. intros W E. apply decode_inp_ok; [exact W|apply inp_ok_fixed_now; exact E]. Qed.
-
-Theorem inp_preimage_injective_env c1 c2 :
-  wf c1 = true -> wf c2 = true -> env_names_ok c1 = true -> env_names_ok c2 = true ->
-  inp_preimage c1 = inp_preimage c2 -> cfg_equiv c1 c2.
-Proof.
-  intros W1 W2 E1 E2. apply (inp_preimage_injective Fixed); try assumption; apply inp_ok_fixed_now; assumption.
+  intros Hu c1 c2 W1 W2 E1 E2. apply (inp_preimage_injective Fixed); try assumption;
+    apply inp_ok_fixed_when_d2_repaired; assumption.
 Qed.
